@@ -1,18 +1,32 @@
-// ---- trusted facts about UTF-8 (assumed, not proved here; vstd::utf8 has the ingredients) ----
-#[verifier::external_body]
+// ---- facts about UTF-8, proved from vstd::utf8's lemmas ----
+proof fn lemma_not_cont(b: u8) requires b < 128 ensures !vstd::utf8::is_continuation_byte(b) { assert((b & 0xC0) != 0x80) by(bit_vector) requires b < 128u8; }
+pub proof fn lemma_ascii_boundary(s: Seq<char>, i: int)
+    requires vstd::utf8::is_ascii_chars(s), 0 <= i <= s.len()
+    ensures vstd::utf8::is_char_boundary(vstd::utf8::encode_utf8(s), i),
+{
+    vstd::utf8::is_ascii_chars_encode_utf8(s);
+    vstd::utf8::encode_utf8_valid_utf8(s);
+    let e = vstd::utf8::encode_utf8(s);
+    if i < s.len() { lemma_not_cont(e[i]); vstd::utf8::is_char_boundary_iff_not_is_continuation_byte(e, i); } else { vstd::utf8::is_char_boundary_start_end_of_seq(e); }
+}
 pub proof fn fact_ascii_subrange(s: Seq<char>, i: int, j: int)
     requires vstd::utf8::is_ascii_chars(s), 0 <= i <= j <= s.len()
     ensures vstd::utf8::encode_utf8(s).len() == s.len(),
             vstd::utf8::is_char_boundary(vstd::utf8::encode_utf8(s), i),
             vstd::utf8::is_char_boundary(vstd::utf8::encode_utf8(s), j),
             vstd::utf8::encode_utf8(s).subrange(i, j) == vstd::utf8::encode_utf8(s.subrange(i, j)),
-{}
-#[verifier::external_body]
+{
+    vstd::utf8::is_ascii_chars_encode_utf8(s);
+    vstd::utf8::is_ascii_chars_encode_utf8(s.subrange(i, j));
+    lemma_ascii_boundary(s, i);
+    lemma_ascii_boundary(s, j);
+    assert(vstd::utf8::encode_utf8(s).subrange(i, j) =~= vstd::utf8::encode_utf8(s.subrange(i, j)));
+}
 pub proof fn fact_encode_utf8_injective(a: Seq<char>, b: Seq<char>)
     requires vstd::utf8::encode_utf8(a) == vstd::utf8::encode_utf8(b)
     ensures a == b
-{}
-// a str / String never holds more than usize::MAX (indeed isize::MAX) bytes
+{ vstd::utf8::encode_utf8_decode_utf8(a); vstd::utf8::encode_utf8_decode_utf8(b); }
+// a str / String never holds more than usize::MAX (indeed isize::MAX) bytes  (trusted: allocation limit)
 #[verifier::external_body]
 pub proof fn fact_str_len_fits(s: Seq<char>)
     ensures vstd::utf8::encode_utf8(s).len() <= usize::MAX
